@@ -349,10 +349,41 @@ def replay_line_fset(model, ob):
     return dict(violates=False)
 
 
+def replay_create_ncwb(model, ob):
+    """run the real Wildcard._create_ncwb on the mask word of the solver's counterexample and compare with plain bit counting"""
+    from ipaddress import IPv4Address, NetmaskValueError
+    from cisco_acl.wildcard import Wildcard
+    try:
+        m = int(model.get("self._wildmask", 0)) & 0xFFFFFFFF
+    except (TypeError, ValueError):
+        return None
+    w = Wildcard("0.0.0.0 0.0.0.0", max_ncwb=30)
+    w._wildmask = IPv4Address(m)
+    r = 0
+    while r < 32 and (m >> r) & 1:
+        r += 1
+    want = ([c for c in range(31, r, -1) if (m >> c) & 1], 32 - r)
+    try:
+        got = w._create_ncwb()
+        got = (list(got[0]), got[1])
+    except NetmaskValueError:
+        got = "NetmaskValueError"
+        if len(want[0]) > 30:
+            return dict(violates=False)
+    if got == want:
+        return dict(violates=False)
+    cmd = ("import sys; from ipaddress import IPv4Address; from cisco_acl.wildcard import Wildcard\n"
+           f"w = Wildcard('0.0.0.0 0.0.0.0', max_ncwb=30); w._wildmask = IPv4Address({m}); got = w._create_ncwb(); print(got)\n"
+           f"sys.exit(0 if (list(got[0]), got[1]) == {want!r} else 1)\n")
+    return dict(violates=True, inputs=dict(wildmask=quad(m)), observed=str(got), expected=str(want), cmd=cmd,
+                what=f"Wildcard._create_ncwb for the mask {quad(m)} returns (non-contiguous bits, prefix length) = {got}, bit counting gives {want}", key=ob.oid.split("#")[0])
+
+
 def main(chk):
     from pyvc import contract as C
     import contracts.c_wildcard  # noqa
     C.REGISTRY["cisco_acl.wildcard.Wildcard.line.fset"].replay = replay_line_fset
+    C.REGISTRY["cisco_acl.wildcard.Wildcard._create_ncwb"].replay = replay_create_ncwb
     chk.prove(["c_wildcard"])
     chk.replay_refuted()
     chk.lemmas(lemmas())
